@@ -146,8 +146,15 @@ def run_sched(ctx, pid, profiles, n_quick, n_thorough, extra=None, monitor_profi
     # schedules the phase-contiguous model cannot express (a caller keeping a reference guard while another call blocks
     # on that shard) run on the implementation only and are judged by the monitors
     impl_only = [s for s in corpus if s.get("impl_only")]
-    corpus = [s for s in corpus if not s.get("impl_only")]
-    allsched = corpus + scheds
+    probes = [s for s in corpus if s.get("probe") and pid in s.get("props", [])]
+    corpus = [s for s in corpus if not s.get("impl_only") and not s.get("probe")]
+    # atomicity probes: the serial orders of each probe are ordinary schedules (run on both sides like the rest)
+    serials = []
+    for s in probes:
+        base_cfg = {k: v for k, v in s["cfg"].items() if k != "points"}
+        for n, evs in enumerate(s["serial"]):
+            serials.append(dict(name="%s_serial%d" % (s["name"], n), cfg=base_cfg, events=evs, profile="probe-serial"))
+    allsched = corpus + serials + scheds
     divs, impl, model = corr.correspond(binary, allsched, pid)
     if impl_only:
         impl.update(corr.run_impl(binary, impl_only, pid + "_implonly"))
@@ -163,6 +170,11 @@ def run_sched(ctx, pid, profiles, n_quick, n_thorough, extra=None, monitor_profi
             failures += monitors.mon_guard(monitors.Trace(s, impl[s["name"]]))
         if s.get("monitor") == "window" and pid in s.get("props", []):
             failures += monitors.mon_window(monitors.Trace(s, impl[s["name"]]))
+        if s.get("monitor") == "micro" and pid in s.get("props", []):
+            fs = monitors.mon_micro(pid, s, impl[s["name"]])
+            for f in fs:
+                f["no_shrink"] = True
+            failures += fs
         if s.get("monitor") == "own" and pid in s.get("props", []):
             fs = monitors.MONITORS[pid](monitors.Trace(s, impl[s["name"]]))
             for f in fs:
@@ -173,6 +185,14 @@ def run_sched(ctx, pid, profiles, n_quick, n_thorough, extra=None, monitor_profi
             for f in fs:
                 f["no_shrink"] = True
             failures += fs
+    if probes:
+        impl_p = corr.run_impl(binary, probes, pid + "_probes")
+        impl.update(impl_p)
+        for s in probes:
+            f = probe_verdict(s, impl_p.get(s["name"], []), [impl.get("%s_serial%d" % (s["name"], n), []) for n in range(len(s["serial"]))])
+            if f:
+                failures.append(f)
+        allsched = allsched + probes
     searched = 0
     if (divergences or not ctx["proof_ok"]) and not [f for f in failures if f["signature"] not in ctx.get("known_sigs", set())] and not ctx.get("replay"):
         # directed search on the implementation alone: the diverging schedules' neighbourhood plus a fresh larger sample
@@ -194,6 +214,34 @@ def run_sched(ctx, pid, profiles, n_quick, n_thorough, extra=None, monitor_profi
     if extra:
         extra(ctx, res, allsched, impl)
     return res
+
+
+def probe_verdict(s, recs, serial_recs):
+    """An atomicity probe stops one thread in the middle of an action the model treats as atomic (holding the lock that
+    makes it atomic) and starts a conflicting action on another thread. Whatever the interleaving, the outcome must be the
+    outcome of one of the two serial orders: the records of the probe's tail (state, return values) are compared with the
+    tails of the serial runs (which are themselves compared with the model like every schedule)."""
+    n = s["tail"]
+    def view(r):
+        sn = r["snap"]
+        ret = r["ret"] if r["ev"].split()[0] == "call" else None
+        return (r["ev"], _json.dumps([ret, r["skipped"]]), _json.dumps([sn["store"], sn["weights"], sn["used"], sn["ticker"], sn["stats"]]))
+    if len(recs) < n or any(r.get("stale_snap") for r in recs[-n:]):
+        return dict(signature="probe-did-not-complete", what="the probe %s did not run to its end (a thread stayed blocked)" % s["name"], name=s["name"],
+                    config=s["cfg"], events=s["events"], no_shrink=True, records=[(r["ev"], r["ret"]) for r in recs][-12:])
+    mine = [view(r) for r in recs[-n:]]
+    for sr in serial_recs:
+        if len(sr) >= n and [view(r) for r in sr[-n:]] == mine:
+            return None
+    first = None
+    for i in range(n):
+        if all(len(sr) < n or view(sr[-n + i]) != mine[i] for sr in serial_recs):
+            first = i
+            break
+    return dict(signature="probe-not-serializable", name=s["name"], config=s["cfg"], events=s["events"], no_shrink=True,
+                what="%s: the overlapped execution ends in a state / with answers that neither serial order produces (first difference at '%s'): got %s; serial orders give %s"
+                     % (s.get("note", s["name"])[:160], mine[first or 0][0], mine[first or 0][1:], [view(sr[-n + (first or 0)])[1:] for sr in serial_recs if len(sr) >= n]),
+                observed=[(r["ev"], r["ret"], r["snap"]["used"], r["snap"]["weights"], r["snap"]["store"], r["snap"]["ticker"]) for r in recs[-n:]])
 
 
 def neighbourhood(divs, limit=6):
@@ -469,12 +517,12 @@ PROPS.update({
                              "overflow-checking (debug) profile"]),
     "C03": dict(module="C03", run=mk("C03", ["roomy", "awaited", "ttl", "ttlchain", "general"], 250, 4000), components=["store", "weights", "admission", "ticker", "api", "queue_worker", "time"],
                 assumptions=["partial: phase-contiguous schedules; 'no memory pressure' is stated per executed put (it fits the free space)"]),
-    "C04": dict(module="C04", modules=["C04", "C04_micro"], run=mk("C04", ["general", "ttl", "awaited", "queue1"], 250, 4000, extra=micro_extra("C04")), components=["store", "api", "queue_worker", "weights", "ticker"]),
+    "C04": dict(module="C04", modules=["C04", "C04_micro"], run=mk("C04", ["general", "ttl", "awaited", "queue1", "expired"], 270, 4000, extra=micro_extra("C04")), components=["store", "api", "queue_worker", "weights", "ticker"]),
     "C05": dict(module="C05", modules=["C05", "C05_micro"], run=mk("C05", ["general", "queue1", "ttl", "evict", "evict2"], 250, 4000, extra=micro_extra("C05", stress_quiescent_extra("C05", stress2_extra("C05")))), components=["weights", "store", "api", "queue_worker", "ticker", "admission"]),
     "C06": dict(module="C06", run=mk("C06", ["evict2", "evict", "general"], 270, 4000), components=["admission", "weights", "sketch", "tinylfu", "store"]),
-    "C07": dict(module="C07", modules=["C07", "C07_micro"], run=mk("C07", ["general", "ttl", "awaited"], 250, 4000, extra=micro_extra("C07", stress2_extra("C07", "nottl"), profiles=("general", "ttl", "awaited", "queue1"))), components=["store", "api", "time", "queue_worker"]),
-    "C08": dict(module="C08", modules=["C08", "C08_window", "C08_micro"], run=mk("C08", ["general", "ttl", "roomy", "ttlchain", "upsertpipe"], 250, 4000, extra=window_extra("C08", monitor=True)), components=["store", "api", "ticker", "weights", "time", "queue_worker"]),
-    "C09": dict(module="C09", run=mk("C09", ["ttl", "general", "ttlchain"], 250, 4000), components=["store", "time", "api", "ticker"]),
+    "C07": dict(module="C07", modules=["C07", "C07_micro"], run=mk("C07", ["general", "ttl", "awaited", "expired"], 260, 4000, extra=micro_extra("C07", stress2_extra("C07", "nottl"), profiles=("general", "ttl", "awaited", "queue1"))), components=["store", "api", "time", "queue_worker"]),
+    "C08": dict(module="C08", modules=["C08", "C08_window", "C08_micro"], run=mk("C08", ["general", "ttl", "roomy", "ttlchain", "upsertpipe", "expired"], 270, 4000, extra=window_extra("C08", monitor=True)), components=["store", "api", "ticker", "weights", "time", "queue_worker"]),
+    "C09": dict(module="C09", run=mk("C09", ["ttl", "general", "ttlchain", "expired"], 260, 4000), components=["store", "time", "api", "ticker"]),
     "C10": dict(module="C10", modules=["C10", "C10_window"], run=mk("C10", ["ttl", "general", "ttlchain"], 250, 4000, extra=window_extra("C10", monitor=True)), components=["ticker", "weights", "store", "api", "time"]),
 })
 
